@@ -45,6 +45,7 @@ def reduction_loop(sx: SX, node: ast.For, st: State, frame):
         s2 = st1.copy()
         s2.env[node.target.id] = elem
         gtexts = []
+        gobjs = []
         for c in conds:
             tr, fa, rs2 = sx.branch(c, s2, frame)
             if len(tr) != 1:
@@ -54,6 +55,7 @@ def reduction_loop(sx: SX, node: ast.For, st: State, frame):
                     continue
                 return None
             gtexts += [g.show(sx.ctx) for g in tr[0].guards[len(s2.guards):]]
+            gobjs += list(tr[0].guards[len(s2.guards):])
             s2 = tr[0]
         vals = sx.eval_x(expr, s2, frame)
         if len(vals) != 1 or isinstance(vals[0], Outcome):
@@ -65,6 +67,7 @@ def reduction_loop(sx: SX, node: ast.For, st: State, frame):
             continue
         fname = ('prod' if op == '*' else 'sum') + f'[{seq.path}|{"&".join(sorted(gtexts))}]'
         atom = Rat.atom(sx.ctx.fatom(fname, (v.term,)))
+        sx.__dict__.setdefault('reduction_filters', {})[fname] = (elem_name, gobjs)
         cur = out.env.get(acc)
         if not isinstance(cur, (N, Dyn, Q)):
             return None
